@@ -486,8 +486,84 @@ def lower_visibility(src):
 
 
 # ---------------------------------------------------------------- R6 adapter chains
+def _chain_after(toks, k):
+    """toks[k] is an ident followed by `(`...`)`; return index after the closing paren"""
+    o = next_sig(toks, k)
+    return match_close(toks, o)
+
+
+def node_adapter_chains(src, log):
+    """R6 (node-index chains):
+       E.nodes().filter(C).collect()                     -> verif_filter_collect_set(E.nodes(), C)
+       E.nodes().filter(C)            (for-loop header)  -> verif_filter_iter(E.nodes(), C)
+       S.iter().map(|x| *x).filter(C).collect()          -> verif_set_filter_collect_vec(&S, C)"""
+    for _ in range(10):
+        toks = tokenize(src)
+        hit = None
+        for k, t in enumerate(toks):
+            if t.kind == "ident" and t.text == "filter":
+                p = prev_sig(toks, k)
+                if p < 0 or toks[p].text != ".":
+                    continue
+                fo = next_sig(toks, k)
+                if toks[fo].text != "(":
+                    continue
+                fc = match_close(toks, fo)
+                clos = text(toks, fo + 1, fc)
+                # what precedes: `... .nodes()` or `... .iter().map(|x| *x)`
+                q = prev_sig(toks, p)  # should be `)`
+                if toks[q].text != ")":
+                    continue
+                # walk back over the receiver chain to its start: idents, `.`, `::`, `self`, (), closures in parens
+                j = q
+                depth = 0
+                start = None
+                while j >= 0:
+                    tt = toks[j]
+                    if tt.text in (")", "]"):
+                        depth += 1
+                    elif tt.text in ("(", "["):
+                        depth -= 1
+                    elif depth == 0 and tt.kind == "ident" and tt.text in ("in", "let", "for", "return", "mut", "if", "match"):
+                        break
+                    elif depth == 0 and tt.kind in ("ident",) or (depth == 0 and tt.text in (".", "::")) or depth > 0 \
+                            or tt.kind in ("ws", "comment"):
+                        pass
+                    else:
+                        break
+                    start = j
+                    j -= 1
+                while toks[start].kind in ("ws", "comment"):
+                    start += 1
+                recv = re.sub(r"\s+", "", text(toks, start, p))
+                d2 = next_sig(toks, fc)
+                is_collect = toks[d2].text == "." and toks[next_sig(toks, d2)].text == "collect"
+                end = fc
+                if is_collect:
+                    end = _chain_after(toks, next_sig(toks, d2))
+                m1 = re.fullmatch(r"(.+)\.nodes\(\)", recv)
+                m2 = re.fullmatch(r"(\w+)\.iter\(\)\.map\(\|x\|\*x\)", recv)
+                if m1 and is_collect:
+                    new = "verif_filter_collect_set(%s.nodes(), %s)" % (m1.group(1), clos)
+                elif m1:
+                    new = "verif_filter_iter(%s.nodes(), %s)" % (m1.group(1), clos)
+                elif m2 and is_collect:
+                    new = "verif_set_filter_collect_vec(&%s, %s)" % (m2.group(1), clos)
+                else:
+                    continue
+                hit = (start, end, new, recv)
+                break
+        if not hit:
+            return src
+        start, end, new, recv = hit
+        src = text(toks, 0, start) + new + text(toks, end + 1, len(toks))
+        log.append({"rule": "R6", "shape": new.split("(")[0], "receiver": recv})
+    raise ExtractError("R6 (node chains) did not converge")
+
+
 def adapter_chains(src, log):
     """X.drain().filter(C).collect()  ->  verif_drain_filter_collect(&mut X, C)"""
+    src = node_adapter_chains(src, log)
     for _ in range(10):
         toks = tokenize(src)
         hit = None
